@@ -156,7 +156,7 @@ Fixpoint print_pre (i : ditem) : list Z :=
 
 (* one white space character that ends a section name of the enclosed style *)
 Definition name_end (d : deco) : list Z :=
-  match ws (d_mid1 d) with [] => [10] | c :: r => c :: r end.
+  match ws (d_mid1 d) with [] => [10] | c :: _ => [c] end.
 
 (* enclosed style with one delimiter:  %name  options ...  (the next % or the end closes) *)
 Fixpoint print_enc (i : ditem) : list Z :=
